@@ -153,6 +153,7 @@ func cmdCheck(args []string) int {
 	workers := fs.Int("workers", 14, "parallel workers")
 	noNative := fs.Bool("no-native", false, "skip native validation (debugging only; the check then exits 2)")
 	maxPaths := fs.Int("max-paths", 0, "")
+	preempt := fs.Int("preempt", -1, "preemption bound (-1 unbounded)")
 	fs.Parse(args)
 	if os.Getenv("VERIF_TIER") != "" && *tier == "quick" {
 		// VERIF_TIER only refines, the command line decides the tier
@@ -209,7 +210,7 @@ func cmdCheck(args []string) int {
 		fmt.Fprintln(os.Stderr, "no harness functions found with prefix", prefix)
 		return 2
 	}
-	cfg := sym.Config{Workers: *workers, MaxPaths: *maxPaths}
+	cfg := sym.Config{Workers: *workers, MaxPaths: *maxPaths, MaxPreempt: *preempt}
 	if *tier == "thorough" {
 		cfg.TimeoutMs = 120000
 	}
